@@ -59,6 +59,9 @@ CORPUS = {
         c("MKD {r}"), c("EPSV"), dict(line=None, xfer="connect_only"), c("PWD"), c("EPSV"),
         dict(line=None, xfer="connect_only"), c("PASV"), up("STOR {r}/a", PAY2), c("DELE {r}/a"), c("RMD {r}"),
         c("QUIT")],
+    "unused_data_relogin": LOGIN + [
+        c("MKD {r}"), c("EPSV"), dict(line=None, xfer="connect_only"), c("USER anonymous"), c("PWD"), down("LIST {r}"),
+        c("EPSV"), dict(line=None, xfer="connect_only"), c("USER anonymous"), c("RMD {r}"), c("QUIT")],
     "noquit": LOGIN + [c("MKD {r}"), c("EPSV"), up("STOR {r}/a", PAY1), down("MLSD {r}"), c("DELE {r}/a"), c("RMD {r}")],
 }
 
